@@ -438,6 +438,9 @@ func caseMix(r *fw.Rand, ext string) string {
 
 func c07Run(c *fw.Ctx) fw.Outcome {
 	r := c.R
+	if c.Idx >= tierN(c.Tier, 42*21, 42*210)+tierN(c.Tier, 30, 300) {
+		return c07CLIErrors(c, int(c.Idx-tierN(c.Tier, 42*21, 42*210)-tierN(c.Tier, 30, 300)))
+	}
 	if c.Idx >= tierN(c.Tier, 42*21, 42*210) {
 		return c07Pages(c)
 	}
@@ -734,6 +737,65 @@ func ttxTwoPageStream(r *fw.Rand, a, b []ncue) (data []byte, pageA, pageB int) {
 	return w.buf.Bytes(), magA*100 + pA, magB*100 + pB
 }
 
+// c07SubCommands: every sub-command of the CLI with the arguments of a successful run (%in, %in2 and %out stand for paths)
+var c07SubCommands = [][]string{
+	{"convert", "-i", "%in", "-o", "%out"},
+	{"sync", "-i", "%in", "-s", "1s", "-o", "%out"},
+	{"fragment", "-i", "%in", "-f", "2s", "-o", "%out"},
+	{"unfragment", "-i", "%in", "-o", "%out"},
+	{"merge", "-i", "%in", "-i", "%in2", "-o", "%out"},
+	{"optimize", "-i", "%in", "-o", "%out"},
+	{"apply-linear-correction", "-i", "%in", "-a1", "1s", "-d1", "2s", "-a2", "5s", "-d2", "7s", "-o", "%out"},
+}
+
+// c07CLIErrors: with every sub-command, an unsupported output extension, an input without any cue, a missing input
+// and an unsupported input extension end with a non-zero exit status, and the good run next to them with zero
+func c07CLIErrors(c *fw.Ctx, k int) fw.Outcome {
+	if !haveCLI() || k >= len(c07SubCommands) {
+		return fw.Skip()
+	}
+	dir := c.TmpDir()
+	good, good2, empty := filepath.Join(dir, "e-in.srt"), filepath.Join(dir, "e-in2.srt"), filepath.Join(dir, "e-empty.vtt")
+	os.WriteFile(good, []byte(simpleSRT([]tcue{{1e9, 2e9, "a"}, {3e9, 4e9, "b"}})), 0o644)
+	os.WriteFile(good2, []byte(simpleSRT([]tcue{{5e9, 6e9, "c"}})), 0o644)
+	os.WriteFile(empty, []byte("WEBVTT\n\n"), 0o644)
+	os.WriteFile(filepath.Join(dir, "e-in.xyz"), []byte("x"), 0o644)
+	name := c07SubCommands[k][0]
+	key := fw.Mix(fw.HashString(name), 0xc07e)
+	run := func(in, in2, out string) (string, error) {
+		var args []string
+		for _, a := range c07SubCommands[k] {
+			switch a {
+			case "%in":
+				a = in
+			case "%in2":
+				a = in2
+			case "%out":
+				a = out
+			}
+			args = append(args, a)
+		}
+		os.Remove(out)
+		return cli(args...)
+	}
+	if msg, err := run(good, good2, filepath.Join(dir, "e-out.vtt")); err != nil {
+		return fw.Bad(key, nil, "CLI %s on a good file failed: %v %s", name, err, msg)
+	}
+	for _, bad := range []struct{ what, in, in2, out string }{
+		{"an unsupported output extension", good, good2, filepath.Join(dir, "e-out.xyz")},
+		{"an input that holds no cue (nothing to write)", empty, empty, filepath.Join(dir, "e-out.srt")},
+		{"a missing input file", filepath.Join(dir, "e-missing.srt"), good2, filepath.Join(dir, "e-out.srt")},
+		{"an unsupported input extension", filepath.Join(dir, "e-in.xyz"), good2, filepath.Join(dir, "e-out.srt")},
+	} {
+		if msg, err := run(bad.in, bad.in2, bad.out); err == nil {
+			return fw.Bad(key, nil, "CLI %s with %s exits with status 0 (%s)", name, bad.what, trunc(msg, 200))
+		}
+		c.Count("cli_error_exits_checked", 1)
+	}
+	c.Feature("cli errors " + name)
+	return fw.OK(key, "cli errors: "+name)
+}
+
 // c07Pages: the teletext page option through the library (Options.Teletext.Page) and the CLI (-p), for convert and merge
 func c07Pages(c *fw.Ctx) fw.Outcome {
 	r := c.R
@@ -867,7 +929,7 @@ func init() {
 		Level:       "exploration",
 		Rule:        "case = (source format, destination format) cycling over all 7 x 6 pairs; a random start-ordered neutral cue list (1..6 cues on a 200 ms grid so that every format can express it exactly, overlaps, abutting cues, repeated texts, 1..2 lines) is rendered into a styled, metadata-bearing source document by the C01-C06 renderers (SRT runs with markup, WebVTT with regions/settings/voices/tags, TTML with styles/regions/attributes, SSA with styles/override blocks, STL at 25/30 fps with any display standard and programme-start offset, teletext TS with one page instance per cue), written to a file whose extension has random letter case, then converted through OpenFile + 0..4 operations (sync, fragment, unfragment, merge with a second document, optimize, order, linear correction last) + Write, or (every 7th round) through the CLI binary built from /repo (convert, sync, fragment, unfragment, merge, optimize, apply-linear-correction). Oracle: the composed executable specifications of C09-C15 applied to the neutral list, truncated to the destination's resolution (ms; cs for ssa/ass; frame for stl, +-1 ns), compared with the destination re-read through OpenFile: count, order, start, end, and text per line with all white space removed; an empty result must give the nothing-to-write error. The last 12 (120) cases put two subtitle pages in one stream and select each through Options.Teletext.Page and through the CLI's -p flag (convert, merge). distinct_nontrivial = distinct (document, destination, operations) cases.",
 		Assumptions: []string{"times are non-negative (negative results of a linear correction are not compared); texts are drawn from an alphabet every format involved can represent (ASCII words; a few Latin letters when teletext is not involved; no '$')", "linear correction is only used as the last operation (its 1 us tolerance would make the outcome of a later fragment ambiguous)"},
-		Cases:       func(tier string) int64 { return tierN(tier, 42*21, 42*210) + tierN(tier, 30, 300) },
+		Cases:       func(tier string) int64 { return tierN(tier, 42*21, 42*210) + tierN(tier, 30, 300) + int64(len(c07SubCommands)) },
 		Anchors:     []string{"Open", "OpenFile", "Subtitles.Write", "astisub/main.go", "all readers and writers"},
 		Run:         c07Run,
 	})
